@@ -124,7 +124,7 @@ PROPS = {
         not_decided="Flate/LZW bounded paths; ASCIIHex/ASCII85 limits; decode_stream_with_limit glue pending",
     ),
     "C21": dict(
-        verus=["tokenizer", "showtext"],
+        verus=["tokenizer", "showtext", "serializeops"],
         standins=["fmt", "content"],
         kani=[K("c21_finite_or_zero_all_f64", "graphics/color.rs", "finite_or_zero")],
         not_decided="numeric operands and formatting, operator vocabulary dispatch, marked-content property lists, TJ arrays",
